@@ -208,6 +208,13 @@ def DelHold (sh : Shared K V) (t : Tid) (d : Bool) (k : K) (e : EId) (a : APc K 
 instance (sh : Shared K V) (t : Tid) (d : Bool) (k : K) (e : EId) (a : APc K V) : Decidable (DelHold sh t d k e a) := by
   unfold DelHold; infer_instance
 
+/-- inside the `Range` loop: the keys still to visit (`todo`) and the keys the callback has been called with (`acc`)
+are pairwise distinct, and every pair still to visit was fetched from a `read` snapshot (still `read.m[k]`, or dead) -/
+def RangeHold (sh : Shared K V) (todo : List (K × EId)) (acc : List (K × V)) : Prop :=
+  (akeys todo ++ acc.map Prod.fst).Nodup ∧ ∀ p ∈ todo, HoldRead sh p.1 p.2
+instance (sh : Shared K V) (todo : List (K × EId)) (acc : List (K × V)) : Decidable (RangeHold sh todo acc) := by
+  unfold RangeHold; infer_instance
+
 /-- about to promote the dirty map -/
 def Promoting (sh : Shared K V) (t : Tid) : Prop := Own sh t ∧ sh.amended = true ∧ sh.dirty.isSome = true
 instance (sh : Shared K V) (t : Tid) : Decidable (Promoting sh t) := by unfold Promoting; infer_instance
@@ -216,7 +223,7 @@ def T (sh : Shared K V) (t : Tid) : Pc K V → APc K V → Prop
   | .idle, a => IsIdle a ∧ ¬ Own sh t
   | .start .range, a => IsIdle a ∧ ¬ Own sh t
   | .start op, a => Pend a op ∧ ¬ Own sh t
-  | .ret (.pairs _), a => IsIdle a ∧ ¬ Own sh t
+  | .ret (.pairs l), a => IsIdle a ∧ ¬ Own sh t ∧ (l.map Prod.fst).Nodup
   | .ret r, a => RetOk a r ∧ ¬ Own sh t
   -- Load
   | .loadRead1 k, a => Pend a (.load k) ∧ ¬ Own sh t
@@ -265,8 +272,8 @@ def T (sh : Shared K V) (t : Tid) : Pc K V → APc K V → Prop
   | .rangeLock, a => IsIdle a ∧ ¬ Own sh t
   | .rangeRead2, a => IsIdle a ∧ Own sh t
   | .rangeStore dm, a => IsIdle a ∧ Promoting sh t ∧ dm = dirtyMap sh
-  | .rangePick _ _, a => IsIdle a ∧ ¬ Own sh t
-  | .rangeLoad _ _ _ _, a => IsIdle a ∧ ¬ Own sh t
+  | .rangePick todo acc, a => IsIdle a ∧ ¬ Own sh t ∧ RangeHold sh todo acc
+  | .rangeLoad todo acc k' e', a => IsIdle a ∧ ¬ Own sh t ∧ RangeHold sh ((k', e') :: todo) acc
 
 instance (sh : Shared K V) (t : Tid) (pc : Pc K V) (a : APc K V) : Decidable (T sh t pc a) := by
   unfold T
